@@ -72,8 +72,8 @@ type Sched struct {
 	UnlockHook func(m *Mutex, thread int)
 	MaxSteps   int
 	Steps      int
-	Err        string // replay divergence, step limit
-	Panic      string // a thread panicked
+	Err        string   // replay divergence, step limit
+	Panic      string   // a thread panicked
 	Blocked    []string // threads still blocked when nothing was enabled
 }
 
